@@ -259,7 +259,7 @@ func TestVerifC02Verdict(t *testing.T) {
 		"req-allow-beats-block", "req-blocked", "req-blocked-hosts-only", "req-safety-second-or-later", "req-svc-rewrite-ignored",
 		"resp-blocked", "resp-allowed", "slots>=3", "meta-allow-added", "meta-rewrite-moved",
 		"repeated-question", "repeated-question-other-requester-modified-response", "change-qtype", "change-host", "edge-host-root-or-tld",
-		"own-allow-equals-shared-allow-with-safety-match")
+		"own-allow-equals-shared-allow-with-safety-match", "self-rewrite-target-queried-mixed-case", "case-variant-pair-compared")
 	st.Finish(t)
 
 	dir := t.TempDir()
@@ -372,6 +372,54 @@ func TestVerifC02Verdict(t *testing.T) {
 			}
 
 			classes := vc02Classes(c, q.host, q.qt, got)
+
+			// Metamorphic relation 3: DNS names are case-insensitive, so the
+			// verdict and the answer do not depend on the client's spelling of
+			// the name (only the echoed question does).
+			selfSpell := c.SelfRewriteSpellings(q.host, q.qt)
+			sentNames := []string{strings.TrimSuffix(req.DNS.Question[0].Name, ".")}
+			if len(selfSpell) > 0 || rapid.Bool().Draw(t, "casePair") {
+				if vname, has := vc02ref.CaseVariant(t, req.DNS.Question[0].Name); has {
+					req2 := *req
+					req2.DNS = req.DNS.Copy()
+					req2.DNS.Question[0].Name = vname
+					res2, ferr2 := f.FilterRequest(ctx, &req2)
+					if ferr2 != nil {
+						t.Fatalf("config %v\nquestion %s %s: FilterRequest error: %v", desc, vname, dns.TypeToString[q.qt], ferr2)
+					}
+
+					obs2 := vc02Observe(res2)
+					same := obs2.Kind == obs.Kind && obs2.List == obs.List && obs2.Rule == obs.Rule && strings.EqualFold(obs2.Target, obs.Target) &&
+						(obs.Msg == nil) == (obs2.Msg == nil) && (obs.Msg == nil || vc02ref.FoldMsg(obs.Msg) == vc02ref.FoldMsg(obs2.Msg))
+					if !same {
+						t.Fatalf("config %v\nthe verdict depends on the letter case of the name:\nquestion %s %s: %s\nquestion %s %s: %s",
+							desc, req.DNS.Question[0].Name, dns.TypeToString[q.qt], obs, vname, dns.TypeToString[q.qt], obs2)
+					}
+
+					if obs2.Msg != nil {
+						if err = vc02CheckMsg(req2.DNS, obs2, got, mode, ttl); err != nil {
+							t.Fatalf("config %v\nquestion %s %s mode %s ttl %d\nverdict %s (as %s)\nmessage %s\n%v",
+								desc, vname, dns.TypeToString[q.qt], mode, ttl, obs2, got, vc02ref.MsgString(obs2.Msg), err)
+						}
+					}
+
+					sentNames = append(sentNames, strings.TrimSuffix(vname, "."))
+					classes = append(classes, "case-variant-pair-compared")
+				}
+			}
+
+			for _, sp := range selfSpell {
+				for _, n := range sentNames {
+					if n != sp {
+						classes = append(classes, "self-rewrite-target-queried-mixed-case")
+
+						break
+					}
+				}
+
+				break
+			}
+
 			if repeat {
 				classes = append(classes, "repeated-question")
 				if change == "requester" && obs.Msg != nil && (mode1.String() != mode2.String() || ttl1 != ttl2) {
@@ -421,7 +469,9 @@ func TestVerifC02Verdict(t *testing.T) {
 
 			// Metamorphic relation 2: a rewrite that decided from a shared list
 			// still decides, now as the custom list, when moved there.
-			if obs.List != vc02ref.IDCustom && (got.Kind == vc02ref.ORwIP || got.Kind == vc02ref.ORwRcode || got.Kind == vc02ref.ORwCNAME) && vc02IsShared(c, obs.List) {
+			// (Not with a rewrite of the host to itself around: merged into one
+			// list, its CNAME would take priority over the moved addresses.)
+			if len(selfSpell) == 0 && obs.List != vc02ref.IDCustom && (got.Kind == vc02ref.ORwIP || got.Kind == vc02ref.ORwRcode || got.Kind == vc02ref.ORwCNAME) && vc02IsShared(c, obs.List) {
 				c2 := vc02MoveRewrites(c, obs.List)
 				f2 := b.build(t, c2)
 				res2, ferr2 := f2.FilterRequest(ctx, vc02Req(t, msgs, q.host, q.qt))
